@@ -175,6 +175,7 @@ def env_actions(dts, n_objects=2, with_delete=True, with_recreate=False, with_fi
     vals = st.integers(0, 5)
     acts = [
         st.builds(lambda o, v, dt: {'a': 'create', 'obj': o, 'v': v, 'dt': dt}, objs, vals, dts),
+        st.builds(lambda o, v, dt, e: {'a': 'create', 'obj': o, 'v': v, 'dt': dt, 'empty': e}, objs, vals, dts, st.booleans()),
         st.builds(lambda o, v, dt: {'a': 'edit_spec', 'obj': o, 'v': v, 'dt': dt}, objs, vals, dts),
         st.builds(lambda o, v, dt: {'a': 'edit_spec', 'obj': o, 'v': v, 'dt': dt}, objs, vals, dts),
         st.builds(lambda o, v, dt: {'a': 'edit_status', 'obj': o, 'v': v, 'dt': dt}, objs, vals, dts),
@@ -287,7 +288,8 @@ class Run:
         t = self.sim.world.now
         eff = True
         if a == 'create':
-            eff = cl.create(KEX, 'default', OBJECTS[act['obj']], {'spec': {'f': act['v']}}) is not None
+            body = {} if act.get('empty') else {'spec': {'f': act['v']}}     # 'empty': an object with an empty essence
+            eff = cl.create(KEX, 'default', OBJECTS[act['obj']], body) is not None
         elif a == 'edit_spec':
             eff = cl.edit(*self.key(act['obj']), lambda b: b.setdefault('spec', {}).update(f=act['v'])) is not None
         elif a == 'edit_status':
@@ -347,6 +349,28 @@ class Run:
                     else:
                         self._end('stop')
             self.advance(act.get('down', 0.0))
+            self.start()
+        elif a == 'downtime':
+            op = self.op()
+            if op is not None and op.alive:
+                if act['how'] == 'kill':
+                    self.sim.kill(self.current)
+                    self._end('kill')
+                else:
+                    self.sim.stop(self.current)
+                    self.incarnations[-1]['asked'] = 'stop'
+                    self.advance(act.get('grace', 30.0))
+                    if self.sim.ops[self.current].alive:
+                        self.sim.kill(self.current)
+                        self._end('stop+kill')
+                    else:
+                        self._end('stop')
+            self.downtimes = getattr(self, 'downtimes', [])
+            t_from = self.sim.world.now
+            for sub in act.get('edits', []):
+                self.do(sub)
+            self.advance(act.get('down', 0.0))
+            self.downtimes.append((t_from, self.sim.world.now))
             self.start()
         elif a == 'stop_only':
             op = self.op()
